@@ -171,5 +171,57 @@ pub fn chain_fp(chain: &Chain, blocks: &[Hash], commits: &[Commitment]) -> Fp {
 	Fp { lines: m }
 }
 
+/// Lines `nrd.NNN` = the recent-kernel (NRD) index list of each given excess, newest first, walked
+/// through the linked-list entries (what `apply_kernel_rules` peeks at and a rewind pops).
+pub fn add_nrd_lines(fp: &mut Fp, chain: &Chain, excesses: &[Commitment]) {
+	use grin_chain::linked_list::{ListEntry, ListIndex, ListWrapper};
+	let store = chain.store();
+	let idx = grin_chain::store::nrd_recent_kernel_index();
+	let batch = match store.batch() {
+		Ok(b) => b,
+		Err(e) => {
+			fp.lines.insert("nrd".into(), format!("ERR {:?}", e));
+			return;
+		}
+	};
+	for (i, ex) in excesses.iter().enumerate() {
+		let v = match idx.get_list(&batch, *ex) {
+			Ok(None) => "-".to_string(),
+			Ok(Some(ListWrapper::Single { pos })) => format!("[{}@{}]", pos.pos, pos.height),
+			Ok(Some(ListWrapper::Multi { head, tail })) => {
+				let mut out = vec![];
+				let mut cur = head;
+				for _ in 0..64 {
+					match idx.get_entry(&batch, *ex, cur) {
+						Ok(Some(ListEntry::Head { pos, next })) => {
+							out.push(format!("{}@{}", pos.pos, pos.height));
+							cur = next;
+						}
+						Ok(Some(ListEntry::Middle { pos, next, .. })) => {
+							out.push(format!("{}@{}", pos.pos, pos.height));
+							cur = next;
+						}
+						Ok(Some(ListEntry::Tail { pos, .. })) => {
+							out.push(format!("{}@{}", pos.pos, pos.height));
+							break;
+						}
+						Ok(None) => {
+							out.push(format!("missing-entry@{}", cur));
+							break;
+						}
+						Err(e) => {
+							out.push(format!("ERR {:?}", e));
+							break;
+						}
+					}
+				}
+				format!("[{}] tail{}", out.join(","), tail)
+			}
+			Err(e) => format!("ERR {:?}", e),
+		};
+		fp.lines.insert(format!("nrd.{:03}", i), v);
+	}
+}
+
 /// the part of the fingerprint that describes best-chain state (C06)
-pub const BEST_CHAIN_KEYS: &[&str] = &["head", "roots", "sizes", "utxo.", "outpos", "tail"];
+pub const BEST_CHAIN_KEYS: &[&str] = &["head", "roots", "sizes", "utxo.", "outpos", "tail", "nrd."];
